@@ -16,7 +16,8 @@ if n == 0:
 open(p, 'w').write(re.sub(pat, rep, s, count=1))
 PY
 for c in "$@"; do
-  IXAI_REPO=$d ./check $c 2>&1 | grep -E "obligations discharged|failed:|VIOLATION|CHECKER|UNDECIDED|undecided" | cut -c1-260
-  echo "$c rc=$?"
+  out=$(IXAI_REPO=$d ./check $c 2>&1); rc=$?
+  echo "$out" | grep -E "obligations discharged|failed:|VIOLATION|CHECKER|UNDECIDED|undecided" | cut -c1-260
+  echo "$c rc=$rc"
 done
 rm -rf $d
